@@ -165,6 +165,9 @@ structure NetD where
   combs : List CLeaf
   regs : List RLeaf
   order : List Nat            -- `Simulator.propagatables` after sorting: a permutation of the combinational ids
+  /-- side condition on the wire values at a settle under which the text is claimed to agree (divisors of Div / Mod are not 0:
+      the simulator raises / is documented as nondeterministic there, the Verilog value is x); `True` for the other children -/
+  good : (Nat → Nat) → Prop := fun _ => True
 
 def NetD.leaf (D : NetD) (k : Nat) : Net.LeafSem Int :=
   match D.combs[k]? with
